@@ -149,6 +149,11 @@ def assemble(unit_dir, repo, vacuity=False, variables=None, probe_insert=None):
                 g.includes.append(inc)
                 process(inc, depth + 1)
                 i += 1; continue
+            if s.startswith("//@once "):
+                # single-slot prophecy stand-ins of this unit: at most one call per path in a function under contract
+                if not hasattr(g, "once"): g.once = []
+                g.once += [x.strip() for x in s[len("//@once "):].split(",") if x.strip()]
+                i += 1; continue
             if s.startswith("//@check_struct "):
                 a = _attrs(s[len("//@check_struct "):])
                 real = source(a["file"]).struct_fields(a["name"])
@@ -355,6 +360,15 @@ def assemble(unit_dir, repo, vacuity=False, variables=None, probe_insert=None):
             i += 1
 
     process(os.path.join(unit_dir, "unit.rs"))
+    if getattr(g, "once", None):
+        # single-slot prophecy stand-ins (`//@once`): at most one call per path in every function under contract
+        import once as _once
+        for f in g.fns:
+            if getattr(f, "kind", "") == "lemma" or not getattr(f, "spec_lines", None):
+                continue
+            _c = _once.conflicts("\n".join(g.lines[f.spec_lines[1]:f.last]), g.once)
+            if _c:
+                raise ExtractError(f"unsupported construct: {_c[0]} in {f.name}: its contract names THE value of the one call, a second call would make the path vacuous")
     # trusted base scan over the whole generated text
     for n, l in enumerate(g.lines, 1):
         if re.search(r"external_body|assume_specification|\bassume\s*\(|\badmit\s*\(|external_type_specification|external_fn_specification|verifier::external\b|exec_allows_no_decreases_clause", l):
